@@ -455,19 +455,24 @@ AppendFunctionMaskAndArgs(O, S) ==
                                               /\ Len(S[q[1]].fields) = OldFieldCount(O, S[q[1]])} }
 
 ---- (* UNSAFE, documented *)
+(* Unsafe edits modify what the OLD schema already has (an edit of a field or combinator that  *)
+(* an earlier edit of the same evolution created is just another way to write that earlier     *)
+(* edit): positions are restricted to old combinators / old fields.                            *)
+InOld(O, c) == HasName(O, c.name) /\ O[IdxOf(O, c.name)].fn = c.fn
+OldPos(O, S, i, j) == InOld(O, S[i]) /\ j <= OldFieldCount(O, S[i])
+OldType(O, T) == T \in TypeNames(O)
 RemoveConstructor(O, S) ==
   { [s |-> RemoveAt(S, i), e |-> Entry("RemoveConstructor", FALSE, TRUE, S[i].name,
                                         IF Cardinality(CtorsOfType(S, S[i].typ)) > 1 THEN "union-variant" ELSE "whole-type", FALSE, i)]
-    : i \in {i \in CtorIdxs(S) : Cardinality(CtorsOfType(S, S[i].typ)) > 1
-                                  \/ RefsToType(S, S[i].typ) = {}} }
+    : i \in {i \in CtorIdxs(S) : InOld(O, S[i]) /\ (Cardinality(CtorsOfType(S, S[i].typ)) > 1 \/ RefsToType(S, S[i].typ) = {})} }
 RemoveFunction(O, S) ==
-  { [s |-> RemoveAt(S, i), e |-> Entry("RemoveFunction", FALSE, TRUE, S[i].name, "", FALSE, i)] : i \in FnIdxs(S) }
+  { [s |-> RemoveAt(S, i), e |-> Entry("RemoveFunction", FALSE, TRUE, S[i].name, "", FALSE, i)] : i \in {i \in FnIdxs(S) : InOld(O, S[i])} }
 
 RemoveField(O, S) ==
   { [s |-> SetFields(S, i, RemoveAt(S[i].fields, j)),
      e |-> Entry("RemoveField", FALSE, TRUE, S[i].name, IF j = Len(S[i].fields) THEN "last" ELSE "inner", FALSE, <<i, j>>)]
     : <<i, j>> \in { q \in (1..Len(S)) \X (1..8) :
-                       /\ q[2] <= Len(S[q[1]].fields)
+                       /\ q[2] <= Len(S[q[1]].fields) /\ OldPos(O, S, q[1], q[2])
                        /\ LET f == S[q[1]].fields[q[2]] IN f.ty.t = "#" => ~VarReferenced(S[q[1]], f.name) } }
 
 (* drop the last template parameter of a type: masks on it disappear, uses become the constant 0, *)
@@ -501,7 +506,7 @@ RemoveTemplateArg(O, S) ==
                                !.res = DropArgTE(S, T, @)]]
         referenced == UsedT(S, T, k) # {}           \* the parameter decides a field presence or an array size
     IN [s |-> S2, e |-> Entry("RemoveTemplateArg", FALSE, TRUE, T, IF referenced THEN "referenced" ELSE "unreferenced", ~referenced, T)]
-    : T \in {T \in TypeNames(S) : Len(S[CHOOSE i \in CtorsOfType(S, T) : TRUE].targs) > 0} }
+    : T \in {T \in TypeNames(S) : OldType(O, T) /\ Len(S[CHOOSE i \in CtorsOfType(S, T) : TRUE].targs) > 0} }
 
 (* one-point changes of a type expression: [te, sub, benign].  A change of a nat argument is  *)
 (* benign (no effect on the wire) when the parameter it feeds has no meaning in the callee,  *)
@@ -543,37 +548,37 @@ ChangeFieldType(O, S) ==
                                (IF S[i].fields[j].ty.t = "#"
                                 THEN (IF VarReferenced(S[i], S[i].fields[j].name) THEN {} ELSE {Alt(TInt, "name")})
                                 ELSE Variants(S, S[i].fields[j].ty, NatVarsBefore(S[i], j)))}
-                            : j \in 1..Len(S[i].fields) }
+                            : j \in {j \in 1..Len(S[i].fields) : OldPos(O, S, i, j)} }
                   : i \in 1..Len(S) } }
   \cup
   { [s |-> [S EXCEPT ![q[1]] = [@ EXCEPT !.res = q[2].te]],
      e |-> Entry("ChangeFieldType", FALSE, TRUE, S[q[1]].name, "result-" \o q[2].sub, q[2].benign, <<q[1], q[2].te>>)]
-    : q \in UNION { {<<i, v>> : v \in ResVariants(S, S[i].res, NatVars(S[i]))} : i \in FnIdxs(S) } }
+    : q \in UNION { {<<i, v>> : v \in ResVariants(S, S[i].res, NatVars(S[i]))} : i \in {i \in FnIdxs(S) : InOld(O, S[i])} } }
 
-MaskedPos(S) == UNION { {<<i, j>> : j \in {j \in 1..Len(S[i].fields) : S[i].fields[j].mask # ""}} : i \in 1..Len(S) }
-UnmaskedPos(S) == UNION { {<<i, j>> : j \in {j \in 1..Len(S[i].fields) : S[i].fields[j].mask = ""}} : i \in 1..Len(S) }
+MaskedPos(O, S) == UNION { {<<i, j>> : j \in {j \in 1..Len(S[i].fields) : S[i].fields[j].mask # "" /\ OldPos(O, S, i, j)}} : i \in 1..Len(S) }
+UnmaskedPos(O, S) == UNION { {<<i, j>> : j \in {j \in 1..Len(S[i].fields) : S[i].fields[j].mask = "" /\ OldPos(O, S, i, j)}} : i \in 1..Len(S) }
 
 ChangeMaskRef(O, S) ==
   { [s |-> SetFields(S, q[1], [S[q[1]].fields EXCEPT ![q[2]] = [@ EXCEPT !.mask = q[3]]]),
      e |-> Entry("ChangeMaskRef", FALSE, TRUE, S[q[1]].name, "", FALSE, q)]
-    : q \in UNION { {<<p[1], p[2], y>> : y \in NatVarsBefore(S[p[1]], p[2]) \ {S[p[1]].fields[p[2]].mask}} : p \in MaskedPos(S) } }
+    : q \in UNION { {<<p[1], p[2], y>> : y \in NatVarsBefore(S[p[1]], p[2]) \ {S[p[1]].fields[p[2]].mask}} : p \in MaskedPos(O, S) } }
 ChangeMaskBit(O, S) ==
   { [s |-> SetFields(S, q[1], [S[q[1]].fields EXCEPT ![q[2]] = [@ EXCEPT !.bit = q[3]]]),
      e |-> Entry("ChangeMaskBit", FALSE, TRUE, S[q[1]].name, "", FALSE, q)]
-    : q \in UNION { {<<p[1], p[2], b>> : b \in Bits \ {S[p[1]].fields[p[2]].bit}} : p \in MaskedPos(S) } }
+    : q \in UNION { {<<p[1], p[2], b>> : b \in Bits \ {S[p[1]].fields[p[2]].bit}} : p \in MaskedPos(O, S) } }
 AddMaskToField(O, S) ==
   { [s |-> SetFields(S, q[1], [S[q[1]].fields EXCEPT ![q[2]] = [@ EXCEPT !.mask = q[3], !.bit = q[4]]]),
      e |-> Entry("AddMaskToField", FALSE, TRUE, S[q[1]].name, "", FALSE, q)]
-    : q \in UNION { {<<p[1], p[2], y, b>> : y \in NatVarsBefore(S[p[1]], p[2]), b \in {0, MaxBit}} : p \in UnmaskedPos(S) } }
+    : q \in UNION { {<<p[1], p[2], y, b>> : y \in NatVarsBefore(S[p[1]], p[2]), b \in {0, MaxBit}} : p \in UnmaskedPos(O, S) } }
 RemoveMaskFromField(O, S) ==
   { [s |-> SetFields(S, p[1], [S[p[1]].fields EXCEPT ![p[2]] = [@ EXCEPT !.mask = "", !.bit = 0]]),
      e |-> Entry("RemoveMaskFromField", FALSE, TRUE, S[p[1]].name, "", FALSE, p)]
-    : p \in MaskedPos(S) }
+    : p \in MaskedPos(O, S) }
 AppendUnmaskedField(O, S) ==
   { [s |-> SetFields(S, q[1], Append(S[q[1]].fields, Field(FreshField(S[q[1]], "zu"), q[2], "", 0))),
      e |-> Entry("AppendUnmaskedField", FALSE, TRUE, S[q[1]].name,
                  (IF S[q[1]].fn THEN "function-" ELSE "constructor-") \o q[2].t, S[q[1]].fn /\ q[2].t = "#", <<q[1], q[2].t>>)]
-    : q \in (1..Len(S)) \X {TInt, TNat} }
+    : q \in {i \in 1..Len(S) : InOld(O, S[i])} \X {TInt, TNat} }
 ReuseUsedBit(O, S) ==
   { [s |-> SetFields(S, q[1], Append(S[q[1]].fields, Field(FreshField(S[q[1]], "zr"), TInt, q[2], q[3]))),
      e |-> Entry("ReuseUsedBit", FALSE, TRUE, S[q[1]].name,
@@ -586,13 +591,13 @@ BareToUnion(O, S) ==
         nc == [fn |-> FALSE, name |-> S[l].name \o "N", typ |-> T, tag |-> MaxTag(S) + 1, targs |-> S[l].targs,
                fields |-> <<Field("v", TInt, "", 0)>>, res |-> TInt]
     IN [s |-> InsertAfter(S, l, nc), e |-> Entry("BareToUnion", FALSE, TRUE, nc.name, "", FALSE, T)]
-    : T \in {T \in TypeNames(S) : Cardinality(CtorsOfType(S, T)) = 1 /\ UsedBare(S, T)} }
+    : T \in {T \in TypeNames(S) : OldType(O, T) /\ Cardinality(CtorsOfType(S, T)) = 1 /\ UsedBare(S, T)} }
 
 ---- (* UNSAFE, not in the documented catalogue (soundness only, C28) *)
 ChangeExplicitTag(O, S) ==
   { [s |-> [S EXCEPT ![i] = [@ EXCEPT !.tag = MaxTag(S) + 1]],
      e |-> Entry("ChangeExplicitTag", FALSE, FALSE, S[i].name, IF S[i].fn THEN "function" ELSE "constructor", FALSE, i)]
-    : i \in 1..Len(S) }
+    : i \in {i \in 1..Len(S) : InOld(O, S[i])} }
 AppendFieldOnSetBit(O, S) ==
   { [s |-> SetFields(S, q[1], Append(S[q[1]].fields, Field(FreshField(S[q[1]], "zs"), TInt, q[2], q[3]))),
      e |-> Entry("AppendFieldOnSetBit", FALSE, FALSE, S[q[1]].name,
